@@ -74,7 +74,7 @@ var (
 func csEnv() *chain.Env {
 	csEnvOnce.Do(func() {
 		users := chain.MakeUsers(6)
-		csEnvDflt = chain.NewEnv(chain.Options{ExtraDenoms: append([]string{"BTC"}, burstDenoms...), GenesisMod: func(app *simapp.SimApp, gs simapp.GenesisState) {
+		csEnvDflt = chain.NewEnv(chain.Options{ExtraDenoms: append([]string{"BTC", "STAKE"}, burstDenoms...), GenesisMod: func(app *simapp.SimApp, gs simapp.GenesisState) {
 			cdc := app.AppCodec()
 			var bg banktypes.GenesisState
 			cdc.MustUnmarshalJSON(gs[banktypes.ModuleName], &bg)
@@ -707,8 +707,9 @@ func (m *csMachine) genSwap(t *rapid.T, live []*poolInfo) csOp {
 	op := csOp{Kind: "swap", Who: m.genWho(t), Buy: rapid.Bool().Draw(t, "buy"), Deadline: m.genDeadline(t)}
 	delta := sub(bigD, m.par.fee)
 	double := len(live) >= 2 && uni(t, "double", 99+1) < 45
-	if uni(t, "nopool", 39+1) == 0 { // a pair whose pool may not exist
-		op.In, op.Out = rapid.SampledFrom(poolDenoms).Draw(t, "in"), rapid.SampledFrom([]string{std, "btc", "eth", "usdt", "BTC", "point"}).Draw(t, "out")
+	if uni(t, "nopool", 19+1) == 0 { // a pair whose pool may not exist
+		// a pair whose pool may not exist, incl. a coin that differs from the standard coin by letter case only
+		op.In, op.Out = rapid.SampledFrom(append([]string{"STAKE", "STAKE"}, poolDenoms...)).Draw(t, "in"), rapid.SampledFrom([]string{std, "btc", "eth", "usdt", "BTC", "point", "STAKE"}).Draw(t, "out")
 		op.A, op.B = m.amount(t, "a", 64).String(), "1"
 		if op.Buy {
 			op.A, op.B = bigHuge.String(), m.amount(t, "b", 30).String()
@@ -792,7 +793,7 @@ func (m *csMachine) genSend(t *rapid.T) csOp {
 		if len(m.order) > 0 && uni(t, "future", 9+1) > 0 {
 			d := rapid.SampledFrom(m.order).Draw(t, "pool")
 			op.To = "pool:" + d
-			op.Denom = rapid.SampledFrom([]string{std, d, std, d, "point", "lpt:" + d, rapid.SampledFrom(poolDenoms).Draw(t, "othercoin")}).Draw(t, "denom")
+			op.Denom = rapid.SampledFrom([]string{std, d, std, d, "point", "lpt:" + d, rapid.SampledFrom(poolDenoms).Draw(t, "othercoin"), "STAKE"}).Draw(t, "denom")
 			ref := cell(m.sheet, m.pools[d].addr, m.resolveDenom(op.Denom))
 			if ref.Sign() == 0 {
 				ref = big.NewInt(1000)
